@@ -1,7 +1,7 @@
 ------------------------------ MODULE AmMem ------------------------------
 (* Property C11: a memory with any number of read and write ports behaves as an array of rows.          *)
-(* State machine over the semantics of AmMemOps: TLC explores, for every configuration of the model     *)
-(* file, every sequence of events                                                                       *)
+(* State machine over the semantics of AmMemOps: TLC explores, for configuration number Cid of the      *)
+(* model file, every sequence of events                                                                      *)
 (*     Edge(D, inp)   the clocks in D rise together while the ports hold the inputs inp                 *)
 (*     TbWrite(i, v)  a testbench writes row i directly (ctx.set(mem.data[i-1], v))                    *)
 (*     TbRead(i)      a testbench reads row i directly (no effect on the state)                         *)
@@ -21,7 +21,9 @@
 (* reads produce unknown bits (X).                                                                      *)
 EXTENDS AmMemOps, TLC, Json, IOUtils
 
-CONSTANTS Mutant,        \* "" or the name of a seeded error in the step function (see AmMemOps)
+CONSTANTS Cid,           \* which configuration of the model file (the event alphabet must be constant-level
+                         \* for TLC to print the parameters of each Edge in the dumped graph)
+          Mutant,        \* "" or the name of a seeded error in the step function (see AmMemOps)
           MaxLevel       \* bound on the number of events (0: none)
 
 Model == JsonDeserialize(IOEnv.MODEL_FILE)
@@ -29,10 +31,12 @@ NConfigs == Len(Model.configs)
 
 ASSUME \A n \in 1..NConfigs : WellFormed(Model.configs[n].cfg)
 
-VARIABLES cid, rows, lat, bad
-vars == <<cid, rows, lat, bad>>
+ASSUME Cid \in 1..NConfigs
 
-M == Model.configs[cid]
+VARIABLES rows, lat, bad
+vars == <<rows, lat, bad>>
+
+M == Model.configs[Cid]
 C == M.cfg
 Ran(s) == {s[n] : n \in 1..Len(s)}
 
@@ -52,26 +56,24 @@ Inputs(D) == {<<[k \in 1..NR(C) |-> r[k][1]], [k \in 1..NR(C) |-> r[k][2]],
               r \in RdAll(D), w \in WrAll(D)}
 
 (* ---- behaviour ------------------------------------------------------------------------------------- *)
-Init == /\ cid \in 1..NConfigs
-        /\ rows = InitRows(Model.configs[cid].cfg)
-        /\ lat = [k \in 1..Len(Model.configs[cid].cfg.rp) |-> Unknown(Model.configs[cid].cfg.w)]
+Init == /\ rows = InitRows(C)
+        /\ lat = [k \in 1..NR(C) |-> Unknown(C.w)]      \* nothing captured yet: not specified
         /\ bad = ""
 
 Edge(D, inp) ==
     /\ rows' = StepRows(C, Mutant, D, inp, rows)
     /\ lat' = StepLat(C, Mutant, D, inp, rows, lat)
     /\ bad' = Clause(C, D, inp, rows, lat, rows', lat')
-    /\ UNCHANGED cid
 
 TbWrite(i, v) ==
     /\ rows' = TbWriteRows(C, rows, i, v)
     /\ bad' = ""
-    /\ UNCHANGED <<cid, lat>>
+    /\ UNCHANGED lat
 
 TbRead(i) ==
     /\ i \in 1..C.depth
     /\ bad' = ""
-    /\ UNCHANGED <<cid, rows, lat>>
+    /\ UNCHANGED <<rows, lat>>
 
 Next == \/ \E D \in Ran(M.edges) : \E inp \in Inputs(D) : Edge(D, inp)
         \/ \E i \in 1..C.depth : \E v \in Ran(M.tbvals) : TbWrite(i, v)
